@@ -76,7 +76,8 @@ sim::Json make_token(sim::Rng& rng, bool cmdline, bool allow_errors) {
     return t;
   }
   if (allow_errors && r < 0.09) {              // value given to a flag
-    t.set("text", std::string(rng.chance(0.5) ? "tech:flagopt" : "flagopt") + "=" + std::to_string(rng.range(0, 3)));
+    static const char* fnames[] = {"tech:flagopt", "flagopt", "tech:flagopt", "flagopt", "OOL_FlagOpt", "ool_flagopt"};    // main name, inline synonym, out-of-line synonym
+    t.set("text", std::string(fnames[rng.below(6)]) + "=" + std::to_string(rng.range(0, 3)));
     t.set("sem", "flagval");
     return t;
   }
